@@ -265,42 +265,44 @@ def run(ctx, report):
     if em is None or rs is None:
         raise AnalysisError('eval_abs.eval_ExprMem / rest_slice not found')
     off_ifs = [n for n in walk_no_nested(em) if isinstance(n, ast.If) and u(n.test).replace(' ', '') == 'off>=0' and n.orelse]
+    # the clauses below read the *shape* of the assembly loop as it is written today; when the loop is written differently they say nothing, and the behaviour is decided by the
+    # interpreted histories of C07.D17 (reads that start inside, before and across stored cells)
     if len(off_ifs) != 1:
-        raise AnalysisError('eval_ExprMem: the branch on the sign of the cell offset (off >= 0) was not found')
-    oi = off_ifs[0]
+        R6.note('eval_ExprMem: no single branch on the sign of the cell offset (off >= 0): the shape clauses are skipped, C07.D17 decides the assembled reads')
+    for oi in off_ifs[:1] if len(off_ifs) == 1 else []:
 
-    def appended(stmts):
-        return [c.args[0] for st in stmts for c in ast.walk(st) if isinstance(c, ast.Call) and u(c.func) == 'out.append' and c.args and isinstance(c.args[0], ast.Tuple)
-                and len(c.args[0].elts) == 3]
-    for t in appended(oi.body):
-        inst = 'overlap:cell-at-or-after-read:%s' % norm(t)
-        if u(t.elts[1]) == 'off_base' and u(t.elts[2]).replace(' ', '') in ('off_base+ee.get_size()', 'off_base+m'):
-            R6.ok(inst, sample='a cell starting inside the read is placed at off*8')
-        else:
-            R6.violation(inst, 'overlap:pos:after:%s' % norm(t), 'a cell that starts %s bytes after the read must be placed at bit off*8; found %s' % ('off', norm(t)), where(ea, t))
-    neg = appended(oi.orelse)
-    if not neg:
-        R6.violation('overlap:cell-before-read', 'overlap:neg:none', 'cells that start before the read are no longer merged into the result', where(ea, oi))
-    for t in neg:
-        inst = 'overlap:cell-before-read:%s' % norm(t)
-        p0 = t.elts[1]
-        if isinstance(p0, ast.Constant) and p0.value == 0 and u(t.elts[2]).replace(' ', '') in ('ee.get_size()', 'm+off*8', 'm-(-off*8)'):
-            R6.ok(inst, sample='the tail of a cell that starts before the read is placed at bit 0')
-        else:
-            R6.violation(inst, 'overlap:pos:before:%s' % norm(t), 'a cell that starts before the read (off < 0) is placed at %s, which is negative: its tail belongs at bit 0' % u(p0), where(ea, t),
-                         witness="after a 32-bit store at 0x1000, a 16-bit read at 0x1001 is not 0x3322")
-    # the slice taken from the earlier cell in the off < 0 branch: [-off*8 : min(size - off*8, cell size))
-    for st in oi.orelse:
-        for c in ast.walk(st):
-            if isinstance(c, ast.Call) and u(c.func) == 'ExprSlice' and len(c.args) == 3:
-                if u(c.args[1]).replace(' ', '') == '-off*8' and u(c.args[2]) == 'm':
-                    R6.ok('overlap:tail-slice', sample='tail slice of the earlier cell starts at -off*8')
-                else:
-                    R6.violation('overlap:tail-slice', 'overlap:tail-slice:%s' % norm(c), 'the part of an earlier cell that the read covers is %s; expected [-off*8 : m)' % norm(c), where(ea, c))
+        def appended(stmts):
+            return [c.args[0] for st in stmts for c in ast.walk(st) if isinstance(c, ast.Call) and u(c.func) == 'out.append' and c.args and isinstance(c.args[0], ast.Tuple)
+                    and len(c.args[0].elts) == 3]
+        for t in appended(oi.body):
+            inst = 'overlap:cell-at-or-after-read:%s' % norm(t)
+            if u(t.elts[1]) == 'off_base' and u(t.elts[2]).replace(' ', '') in ('off_base+ee.get_size()', 'off_base+m'):
+                R6.ok(inst, sample='a cell starting inside the read is placed at off*8')
+            else:
+                R6.violation(inst, 'overlap:pos:after:%s' % norm(t), 'a cell that starts %s bytes after the read must be placed at bit off*8; found %s' % ('off', norm(t)), where(ea, t))
+        neg = appended(oi.orelse)
+        if not neg:
+            R6.violation('overlap:cell-before-read', 'overlap:neg:none', 'cells that start before the read are no longer merged into the result', where(ea, oi))
+        for t in neg:
+            inst = 'overlap:cell-before-read:%s' % norm(t)
+            p0 = t.elts[1]
+            if isinstance(p0, ast.Constant) and p0.value == 0 and u(t.elts[2]).replace(' ', '') in ('ee.get_size()', 'm+off*8', 'm-(-off*8)'):
+                R6.ok(inst, sample='the tail of a cell that starts before the read is placed at bit 0')
+            else:
+                R6.violation(inst, 'overlap:pos:before:%s' % norm(t), 'a cell that starts before the read (off < 0) is placed at %s, which is negative: its tail belongs at bit 0' % u(p0), where(ea, t),
+                             witness="after a 32-bit store at 0x1000, a 16-bit read at 0x1001 is not 0x3322")
+        # the slice taken from the earlier cell in the off < 0 branch: [-off*8 : min(size - off*8, cell size))
+        for st in oi.orelse:
+            for c in ast.walk(st):
+                if isinstance(c, ast.Call) and u(c.func) == 'ExprSlice' and len(c.args) == 3:
+                    if u(c.args[1]).replace(' ', '') == '-off*8' and u(c.args[2]) == 'm':
+                        R6.ok('overlap:tail-slice', sample='tail slice of the earlier cell starts at -off*8')
+                    else:
+                        R6.violation('overlap:tail-slice', 'overlap:tail-slice:%s' % norm(c), 'the part of an earlier cell that the read covers is %s; expected [-off*8 : m)' % norm(c), where(ea, c))
     # rest_slice walks ascending positions: the argument is sorted by position right before the call
     calls = [n for n in walk_no_nested(em) if isinstance(n, ast.Call) and u(n.func) == 'self.rest_slice']
     if not calls:
-        raise AnalysisError('eval_ExprMem no longer computes the gaps with rest_slice')
+        R6.note('eval_ExprMem does not call rest_slice: the sortedness clause is skipped, C07.D17 decides the assembled reads')
     for c in calls:
         stc = c
         while not isinstance(stc, ast.stmt):
@@ -367,7 +369,7 @@ def run(ctx, report):
     from .c12 import state_copy_rule
     state_copy_rule(R14c, [ctx.mod('eval_abs')])
 
-    R17 = report.rule('C07.D17', 'the symbolic machine interpreted from its source on 24 instruction histories (stores that cover, split or abut earlier stores, reads between stores, the '
+    R17 = report.rule('C07.D17', 'the symbolic machine interpreted from its source on 26 instruction histories (stores that cover, split or abut earlier stores, reads between stores, the '
                       'same address at two widths, parallel assignments inside one instruction, an address register updated between store and read): registers and probed cells after the '
                       'history, valued on three initial states, equal the concrete byte-level execution of the same history (shared with C06.D16)', floor=20)
     from .. import machine as _machine
